@@ -394,7 +394,8 @@ class LabelBase(INET):
         else:
             addpath = self.path_info.pack_path()
         mask = bytes([self.cidr.mask])
-        return Family.index(self) + bytes(addpath) + mask + self.cidr.pack_ip()
+        # the tag is 4, 5 or 8 bytes long: it carries its length so that it can not run into the mask
+        return Family.index(self) + bytes([len(addpath)]) + bytes(addpath) + mask + self.cidr.pack_ip()
 
     def prefix_index(self) -> bytes:
         mask = bytes([self.cidr.mask])
